@@ -153,6 +153,18 @@ def run_c14(rep):
     fam_diag.diag_family(rep, n, known_classes=known_classes("C14"))
 
 
+def run_c18(rep):
+    import fam_graph
+    n, ops = sizes(rep, (300, 14), (5000, 30))
+    fam_graph.graph_family(rep, n, ops, "C18", known_classes=known_classes("C18"))
+
+
+def run_c12(rep):
+    import fam_graph
+    n, ops = sizes(rep, (400, 12), (6000, 30))
+    fam_graph.graph_family(rep, n, ops, "C12", known_classes=known_classes("C12"))
+
+
 # ------------------------------------------------------------------------------------------------ registry
 
 PROPS = {
@@ -311,6 +323,33 @@ PROPS = {
                    "table of all 42 format_error call sites and 8 forwarding calls re-extracted from the source on every run "
                    "(each passes the index unshifted); that the index is the right line is decided by the placement oracle",
     ),
+    "C18": dict(
+        theorems=[T + "renderToks_sub", T + "renderTok_sub", T + "renderBranches_sub", T + "renderChoiceTexts_sub",
+                  T + "renderPassage_in_graph", T + "offerChoices_subset", T + "firstJumpSpec_in", T + "missing_exact",
+                  T + "tokenKinds_covered"],
+        run=run_c18,
+        rule="compiled generated stories (choices and jumps at top level and nested in @if/@for to depth 2-3, @join, hooks), "
+             "45 % with one corrupted call site (unknown target etc.), and every .bard file of the repository; real "
+             "extract_connections vs the Lean model and vs a generic walk of the story; transitions observed in random "
+             "play-throughs must be edges; distinct by hash of the source",
+        level_text="proof: renderToks_sub (mutual induction over the token tree, for every Sem): every block choice a render "
+                   "hands out and every jump target it reports is found by the static walk; renderPassage_in_graph lifts it "
+                   "to offered choices and jumps of a passage, firstJumpSpec_in to immediate jumps; missing_exact: flagged = "
+                   "referenced ∧ undefined, and @join is never a reference",
+    ),
+    "C12": dict(
+        theorems=[T + "bind_eq_pyCall", T + "validated_bind_never_missing", T + "pyCall_of_valid", T + "renderPassage_in_graph", T + "tokenKinds_covered"],
+        run=run_c12,
+        rule="every story the real compiler accepts among generated sources (45 % with one call site corrupted: unknown "
+             "target, surplus / unknown / missing / duplicate argument, at top level or nested in a block) and the "
+             "repository's stories: JSON round trip, initial passage, keys = ids, token kinds, every call site judged by "
+             "Python's ast + call rule independently, navigation errors in play; model predicates wfTop / wfAll compared",
+        level_text="proof for validated (top-level) call sites: a site accepted by the validator can never raise a "
+                   "missing/surplus/unknown/duplicate-argument error (bind_eq_pyCall, validated_bind_never_missing), and all "
+                   "targets a play can reach are statically visible sites (renderPassage_in_graph); sites nested in blocks "
+                   "are not validated by the compiler — recorded finding C12-F1 — so the navigation-safety clause is decided "
+                   "by the oracle, which accepts exactly that class",
+    ),
 }
 
 
@@ -359,6 +398,14 @@ def witness_fails(wj):
         c["cycles"] = False
         fs = getattr(oracles, wj["oracle"])(c)
         return any(f["cls"] == wj.get("cls") for f in fs)
+    if fam == "wf":
+        import fam_graph
+        try:
+            story = corr_play.compile_source(wj["source"])
+        except Exception:  # noqa
+            return False      # the compiler now rejects it: the finding no longer reproduces
+        sites = fam_graph.all_sites(story)
+        return any(n and not fam_graph.site_ok(story, t, a, j) for (s_, t, a, n, j) in sites)
     if fam == "diag":
         import fam_diag, tempfile, shutil, os
         d = tempfile.mkdtemp(prefix="verif_w_")
